@@ -210,6 +210,9 @@ def check_property(pid, suites, tier, seed, level_note="", assumptions=None, lea
         sm = suite.run_model(suite.prepare_model([small], [si]))[0]
         rp = core.write_replay(pid, "violation", {"property": pid, "suite": suite.name, "op": small, "impl": si, "model": sm,
                                                   "note": suite.judge(small, si, sm).note, "original_op": op if small != op else None,
+                                                  # what the run itself observed (kept because a schedule-dependent failure may not
+                                                  # show again when the minimised case is re-run for this file)
+                                                  "first_observation": {"note": note, "impl": _trunc(i, 6000)},
                                                   "count_unlisted_violations": len(unknown)})
         print("VIOLATION property=%s replay=%s" % (pid, rp))
         exit_code = 1
